@@ -18,9 +18,11 @@ from gverif.common import SEED, ensure_repo
 from gverif.harness import Run
 
 NAMES = ["m", "n", "K", "f", "x", "a", "b"]
-NAME_OF = {"m1": "m", "n1": "n", "k1": "K", "k2": "K", "f1": "f", "f2": "f", "x1": "x", "a1": "a", "a2": "b"}
-KIND_OF = {"m1": "module", "n1": "module", "k1": "class", "k2": "class", "f1": "function", "f2": "function", "x1": "attribute", "a1": "alias", "a2": "alias"}
-CONT = ["COLL", "m1", "n1", "k1", "k2"]
+NAME_OF = {"m1": "m", "m2": "m", "n1": "n", "k1": "K", "k2": "K", "f1": "f", "f2": "f", "x1": "x", "a1": "a", "a2": "b", "a3": "K"}
+KIND_OF = {"m1": "module", "m2": "module", "n1": "module", "k1": "class", "k2": "class", "f1": "function", "f2": "function", "x1": "attribute", "a1": "alias", "a2": "alias", "a3": "alias"}
+FILE_OF = {"m1": "/c16/m.py", "m2": "/c16/m.pyi", "n1": "/c16/n.py"}
+ALIASES = ("a1", "a2", "a3")
+CONT = ["COLL", "m1", "m2", "n1", "k1", "k2"]
 NIL = "nil"
 
 
@@ -34,7 +36,9 @@ class World:
         for oid, kind in KIND_OF.items():
             nm = NAME_OF[oid]
             if kind == "module":
-                self.o[oid] = griffe.Module(nm)
+                from pathlib import Path  # noqa: PLC0415
+
+                self.o[oid] = griffe.Module(nm, filepath=Path(FILE_OF[oid]))
             elif kind == "class":
                 self.o[oid] = griffe.Class(nm)
             elif kind == "function":
@@ -72,13 +76,13 @@ class World:
                 real._parent = pv
             else:
                 real.parent = pv
-        for a in ("a1", "a2"):
+        for a in ALIASES:
             t = snap["atarget"][a]
             self.o[a]._target = None if t == NIL else self.o[t]
             self.o[a].target_path = ".".join(snap["atpath"][a])
         for oid in self.o:
             if KIND_OF[oid] != "alias":
-                self.o[oid].aliases = {".".join(r["path"]): self.o[r["alias"]] for r in snap["backrefs"][oid]}
+                self.o[oid].aliases = {".".join(r["path"]): self.o[r["alias"]] for r in snap["backrefs"][oid]}  # insertion order = spec order
 
     def project(self, outcome: str) -> dict:
         members = {}
@@ -91,14 +95,14 @@ class World:
         parent = {}
         for oid, real in self.o.items():
             parent[oid] = self.sid(real._parent if KIND_OF[oid] == "alias" else real.parent)
-        atarget = {a: self.sid(self.o[a]._target) for a in ("a1", "a2")}
-        atpath = {a: self.o[a].target_path.split(".") for a in ("a1", "a2")}
+        atarget = {a: self.sid(self.o[a]._target) for a in ALIASES}
+        atpath = {a: self.o[a].target_path.split(".") for a in ALIASES}
         backrefs = {}
         for oid, real in self.o.items():
             if KIND_OF[oid] == "alias":
                 backrefs[oid] = []
             else:
-                backrefs[oid] = sorted(({"path": p.split("."), "alias": self.sid(al)} for p, al in real.aliases.items() if id(al) in self.ids), key=lambda r: (r["path"], r["alias"]))
+                backrefs[oid] = [{"path": p.split("."), "alias": self.sid(al)} for p, al in real.aliases.items() if id(al) in self.ids]  # dict order
         return {"members": members, "parent": parent, "atarget": atarget, "atpath": atpath, "backrefs": backrefs, "outcome": outcome}
 
     # ---- the API calls -----------------------------------------------------------------------------
@@ -156,7 +160,10 @@ class World:
         g = self.g
         att = self.attached()
         # I1 parent is container
+        in_tree = {id(r) for _, r, _ in att}
         for c in CONT[1:]:
+            if id(self.o[c]) not in in_tree:
+                continue   # e.g. a stubs module that was merged away keeps its dict
             for n, real in self.o[c].members.items():
                 if real.parent is not self.o[c]:
                     bad.append(("I1", f"{c}.members[{n!r}].parent is {self.sid(real.parent)}"))
@@ -186,7 +193,7 @@ class World:
                 except Exception as exc:  # noqa: BLE001
                     bad.append(("I3", f"chained lookup {parts[:i]} + {parts[i:]} raised {exc!r}"))
         # I6 / I7 aliases
-        for a in ("a1", "a2"):
+        for a in ALIASES:
             al = self.o[a]
             if al._target is al:
                 bad.append(("I7", f"{a} targets itself"))
@@ -214,7 +221,10 @@ class World:
                     got = self.obj(op["root"]).get_member(tuple(key))
                 except Exception as exc:  # noqa: BLE001
                     got = exc
-                if got is not self.o[op["value"]]:
+                val = self.o[op["value"]]
+                merged = (KIND_OF[op["value"]] == "module" and not isinstance(got, BaseException) and not getattr(got, "is_alias", True) and got.kind.value == "module" and got is not val
+                          and str(got.filepath).endswith(".pyi") != str(val.filepath).endswith(".pyi") and not str(got.filepath).endswith(".pyi"))
+                if got is not val and not merged:   # (a stubs module set over / under its regular module is merged: the regular one is stored)
                     crosses = False
                     cur = self.obj(op["root"])
                     for part in key[:-1]:
@@ -241,7 +251,9 @@ class World:
         return bad
 
     def _i5(self, pre, op, bad):
-        # container the single-part write went to: walk the pre-state
+        """Every attached alias that pointed at the non-alias member previously stored at the written key
+        now points at the value stored there (the replacement, or the kept regular module after a stub
+        merge), unless that would be a self-target (same object / same path)."""
         key = op["key"]
         cont = op["root"]
         for part in key[:-1]:
@@ -249,23 +261,37 @@ class World:
             if cont not in CONT:
                 return
         old = pre["members"][cont][key[-1]]
-        new = op["value"]
-        if old == NIL or old == new or KIND_OF[old] == "alias":
+        val = op["value"]
+        if old == NIL or old == val or KIND_OF[old] == "alias":
             return
-        for a in ("a1", "a2"):
+        stored = self.obj(cont).members.get(key[-1])
+        for a in ALIASES:
             al = self.o[a]
             pointed = pre["atarget"][a] == old
-            listed = any(r["alias"] == a for r in pre["backrefs"][old])
-            if pointed and listed and pre["parent"][a] != NIL:
-                if a == new:
+            listed = any(r["alias"] == a and r["path"] == self._pre_path(pre, a) for r in pre["backrefs"][old])
+            if pointed and listed and pre["parent"][a] != NIL and self._pre_attached(pre, a):
+                if al is stored or al._target is stored:
                     continue
-                if al._target is not self.o[new]:
-                    try:
-                        same_path = al.path == ".".join(self._pre_path(pre, new))
-                    except Exception:  # noqa: BLE001
-                        same_path = False
-                    if not same_path:
-                        bad.append(("I5", f"{a} pointed at {old}, which was replaced by {new}, but now targets {self.sid(al._target)}"))
+                try:
+                    same_path = stored is not None and al.path == stored.path
+                except Exception:  # noqa: BLE001
+                    same_path = False
+                if not same_path:
+                    bad.append(("I5", f"{a} pointed at {old}; after set_member stored {self.sid(stored)} at that key, {a} targets {self.sid(al._target)}"))
+
+    @staticmethod
+    def _pre_attached(pre, oid):
+        n = 0
+        while n < 6:
+            holders = [c for c in CONT if pre["members"][c][NAME_OF[oid]] == oid]
+            if "COLL" in holders:
+                return True
+            holders = [h for h in holders if h != "COLL"]
+            if not holders:
+                return False
+            oid = holders[0]
+            n += 1
+        return False
 
     @staticmethod
     def _pre_path(pre, oid):
@@ -280,10 +306,7 @@ class World:
 
 
 def norm(snap: dict) -> dict:
-    s = json.loads(json.dumps(snap))
-    for oid in s["backrefs"]:
-        s["backrefs"][oid] = sorted(s["backrefs"][oid], key=lambda r: (r["path"], r["alias"]))
-    return s
+    return json.loads(json.dumps(snap))
 
 
 def first_diff(a: dict, b: dict) -> str:
@@ -357,6 +380,61 @@ def replay_histories(run: Run, griffe, cases: list, mode: str):
         if ok:
             run.nontrivial_case("H" + json.dumps([s["op"] for s in hist[1:]], sort_keys=True))
     return drift
+
+
+def real_loads(run: Run, griffe, packages: list):
+    """Invariants of Tree.tla evaluated on trees built by REAL loader executions (visitor + loader +
+    alias resolution use only the API calls modelled in Tree.tla, in the clean top-down discipline):
+    I1, I2, I3 (dotted = chained, every split), I6, I7 on every member of every loaded package."""
+    loader = griffe.GriffeLoader(allow_inspection=False)
+    for p in packages:
+        try:
+            loader.load(p)
+        except Exception as exc:  # noqa: BLE001
+            run.note(f"real_loads: could not load {p}: {exc!r}")
+    loader.resolve_aliases(implicit=True, external=False)
+    coll = loader.modules_collection
+    count = 0
+
+    def bad(inv, what, path):
+        top = path.split(".")[0]
+        run.violation({"mode": "real-load", "inv": inv, "op": "load", "cause": "-"}, f"{inv} broken in the tree loaded from package {top}: {what}", {"kind": "real-load", "packages": packages, "path": path})
+
+    def walk(obj):
+        nonlocal count
+        for name, m in list(obj.members.items()):
+            count += 1
+            path = m.path
+            if m.parent is not obj:
+                bad("I1", f"{path}.parent is not its container", path)
+            if m.name != name:
+                bad("I1", f"{path} stored under key {name!r}", path)
+            try:
+                parts = path.split(".")
+                if coll.get_member(path) is not m or coll[tuple(parts)] is not m:
+                    bad("I2", f"{path} not retrievable by its own path", path)
+                for i in range(1, len(parts)):
+                    if coll.get_member(parts[:i]).get_member(parts[i:]) is not m:
+                        bad("I3", f"chained lookup {parts[:i]}+{parts[i:]} differs", path)
+            except Exception as exc:  # noqa: BLE001
+                bad("I2", f"lookup of {path} raised {exc!r}", path)
+            if m.is_alias:
+                if m._target is m:
+                    bad("I7", f"{path} targets itself", path)
+                t, hops = m._target, 0
+                while t is not None and t.is_alias and hops < 20:
+                    t, hops = t._target, hops + 1
+                if t is not None and not t.is_alias and t.aliases.get(path) is not m:
+                    bad("I6", f"{path} not listed in aliases of final target {t.path}", path)
+            else:
+                walk(m)
+
+    for mod in list(coll.members.values()):
+        walk(mod)
+    run.evaluated(count)
+    run.replayed(len(packages))
+    run.extra.setdefault("real_load_members", 0)
+    run.extra["real_load_members"] += count
 
 
 MODES = {
@@ -454,6 +532,7 @@ def main(tier: str, replay: str | None = None):
         if len(uniq) > nsim * 4:
             uniq = rnd.sample(uniq, nsim * 4)
         drift += replay_histories(run, griffe, uniq, mode)
+    real_loads(run, griffe, ["json", "email", "logging", "_griffe"] if tier == "quick" else ["json", "email", "logging", "_griffe", "importlib", "concurrent", "unittest", "xml", "asyncio", "http", "collections", "multiprocessing"])
     if drift:
         run.note(f"{drift} replayed call(s)/histories where the real objects differ from the spec's post-state (model drift; the verdict comes from the invariants evaluated on the real objects)")
     run.extra["drift"] = drift
